@@ -2,19 +2,20 @@ import TpmVerif.Model.Auth
 /-!
   C04 — authorization is enforced. Theorems about `Model.Auth` (the decision of `SessionProcess.c` on the wire level).
   What cannot be a theorem: that HMAC-SHA256 has no collisions/forgeries. The theorems therefore state (a) the decision
-  logic outright — a command runs only if EVERY required authorization verifies against the entity's current secret,
-  the current nonceTPM, and a cpHash over exactly the bytes received — and (b) that the HMAC *input* is injective in
-  every protected field, so any single-field change changes what is HMACed.
+  logic outright — a command runs only if EVERY required authorization verifies against the entity's current secret or
+  policy, the current nonceTPM, and a cpHash over exactly the bytes received — and (b) that the HMAC *input* is injective
+  in every protected field, so any single-field change changes what is HMACed.
 -/
 namespace TpmVerif.Props.C04
 open TpmVerif TpmVerif.Crypto TpmVerif.Model.Auth
 
 /-! ### Decision logic -/
 
-/-- **a command is authorized only if every handle that needs an authorization has one that verifies** -/
-theorem checkFrom_ok (st : St) (cph : Bytes) : ∀ (hs : List Nat) (as : List AuthIn) (i : Nat),
-    checkFrom st cph hs as i = .ok →
-    hs.length ≤ as.length ∧ ∀ k, k < hs.length → ∃ e a, st.ent (hs.getD k 0) = some e ∧ as[k]? = some a ∧ checkOne st e cph a = true := by
+/-- **a command is authorized only if every handle that needs an authorization has one that passes** -/
+theorem checkFrom_ok (st : St) (cc attr : Nat) (cph : Bytes) : ∀ (hs : List Nat) (as : List AuthIn) (i : Nat),
+    checkFrom st cc attr cph hs as i = .ok →
+    hs.length ≤ as.length ∧ ∀ k, k < hs.length →
+      ∃ e a, st.ent (hs.getD k 0) = some e ∧ as[k]? = some a ∧ checkOne st e cc (roleOf attr (i + k)) cph a = .pass := by
   intro hs
   induction hs with
   | nil => intro as i _; exact ⟨Nat.zero_le _, fun k hk => absurd hk (Nat.not_lt_zero _)⟩
@@ -28,30 +29,43 @@ theorem checkFrom_ok (st : St) (cph : Bytes) : ∀ (hs : List Nat) (as : List Au
       | none => simp [he] at hok
       | some e =>
         simp only [he] at hok
-        by_cases hc : checkOne st e cph a = true
-        · simp only [hc, if_true] at hok
+        cases hc : checkOne st e cc (roleOf attr i) cph a with
+        | pass =>
+          simp only [hc] at hok
           obtain ⟨hl, hall⟩ := ih as (i + 1) hok
           refine ⟨by simp; omega, ?_⟩
           intro k hk
           cases k with
-          | zero => exact ⟨e, a, by simpa using he, by simp, hc⟩
+          | zero => exact ⟨e, a, by simpa using he, by simp, by simpa using hc⟩
           | succ k =>
             obtain ⟨e', a', h1, h2, h3⟩ := hall k (by simpa using hk)
-            exact ⟨e', a', by simpa using h1, by simpa using h2, h3⟩
-        · simp [hc] at hok
+            refine ⟨e', a', by simpa using h1, by simpa using h2, ?_⟩
+            have : i + (k + 1) = i + 1 + k := by omega
+            rw [this]; exact h3
+        | failAuth => simp [hc] at hok
+        | failPolicy => simp [hc] at hok
+        | failPolicyCC => simp [hc] at hok
+        | unavailable => simp [hc] at hok
+        | authType => simp [hc] at hok
+        | badAttributes => simp [hc] at hok
+        | noSession => simp [hc] at hok
 
-/-- the whole decision: `ok` implies enough sessions and every required one verifies against the cpHash of the bytes received -/
+/-- the whole decision: `ok` implies enough sessions, and every required one passes against the cpHash of the bytes received -/
 theorem authorize_ok (st : St) (c : Cmd) (attr : Nat) (h : authorize st c attr = .ok) :
     requiredAuths attr ≤ c.auths.length ∧
     ∀ k, k < (c.handles.take (requiredAuths attr)).length →
       ∃ e a, st.ent ((c.handles.take (requiredAuths attr)).getD k 0) = some e ∧ c.auths[k]? = some a ∧
-        checkOne st e (cpHash c.cc (c.handles.map (fun h => ((st.ent h).map (·.name)).getD (be32 h))) c.params) a = true := by
+        checkOne st e c.cc (roleOf attr k)
+          (cpHash c.cc (c.handles.map (fun h => ((st.ent h).map (·.name)).getD (be32 h))) c.params) a = .pass := by
   unfold authorize at h
   simp only at h
   by_cases hl : c.auths.length < requiredAuths attr
   · simp [hl] at h
   · simp only [hl, if_false] at h
-    exact ⟨Nat.le_of_not_lt hl, (checkFrom_ok st _ _ _ 0 h).2⟩
+    refine ⟨Nat.le_of_not_lt hl, ?_⟩
+    intro k hk
+    obtain ⟨e, a, h1, h2, h3⟩ := (checkFrom_ok st _ _ _ _ _ 0 h).2 k hk
+    exact ⟨e, a, h1, h2, by simpa using h3⟩
 
 /-- **a missing session is an authorization error**, whatever the sessions that are present contain -/
 theorem missing_session (st : St) (c : Cmd) (attr : Nat) (h : c.auths.length < requiredAuths attr) :
@@ -59,27 +73,192 @@ theorem missing_session (st : St) (c : Cmd) (attr : Nat) (h : c.auths.length < r
   unfold authorize; simp [h]
 
 /-- a failing first authorization stops the command, whatever follows -/
-theorem first_fail (st : St) (cph : Bytes) (h : Nat) (hs : List Nat) (a : AuthIn) (as : List AuthIn) (e : Entity)
-    (he : st.ent h = some e) (hc : checkOne st e cph a = false) : checkFrom st cph (h :: hs) (a :: as) 0 = .authFail 0 := by
-  simp [checkFrom, he, hc]
+theorem first_fail (st : St) (cc attr : Nat) (cph : Bytes) (h : Nat) (hs : List Nat) (a : AuthIn) (as : List AuthIn) (e : Entity)
+    (w : Check) (he : st.ent h = some e) (hc : checkOne st e cc (roleOf attr 0) cph a = w) (hw : w ≠ .pass) :
+    checkFrom st cc attr cph (h :: hs) (a :: as) 0 = .authFail 0 w := by
+  cases w <;> simp_all [checkFrom]
 
-/-- **HMAC session: accepted iff the HMAC equals the reference value** over cpHash, the caller's nonce, the session's
-    CURRENT nonceTPM and the attributes, keyed with sessionKey ‖ authValue (authValue left out iff bound to this entity now) -/
-theorem checkOne_hmac_iff (st : St) (e : Entity) (cph : Bytes) (a : AuthIn) (s : Session)
-    (hpw : a.sh ≠ TPM_RS_PW) (hs : st.session a.sh = some s) :
-    checkOne st e cph a = true ↔
-      a.hmac = hmac sha256 (s.key ++ (if boundTo s e then [] else e.auth)) (cph ++ a.nonce ++ s.nonceTPM ++ [UInt8.ofNat a.attrs]) := by
-  simp [checkOne, hpw, hs, expectedHmac, hmacKey, authMsg]
+/-- HMAC check: passes iff the key and the HMAC field are both empty, or the field equals the reference HMAC -/
+theorem hmacCheck_pass_iff (s : Session) (key cph : Bytes) (a : AuthIn) :
+    hmacCheck s key cph a = .pass ↔
+      (key = [] ∧ a.hmac = []) ∨ a.hmac = hmac sha256 key (cph ++ a.nonce ++ s.nonceTPM ++ [UInt8.ofNat a.attrs]) := by
+  unfold hmacCheck authMsg
+  by_cases h1 : key = [] ∧ a.hmac = []
+  · simp [h1]
+  · by_cases h2 : a.hmac = hmac sha256 key (cph ++ a.nonce ++ s.nonceTPM ++ [UInt8.ofNat a.attrs])
+    · simp [h2]
+    · simp [h1]
+
+/-- **HMAC session (not a policy session): passes only if** no policy is required for the role, the authValue may be
+    used, and the HMAC equals the reference over cpHash, the caller's nonce, the session's CURRENT nonceTPM and the
+    attributes, keyed with sessionKey ‖ authValue (authValue left out iff the session is bound to this entity now) -/
+theorem checkOne_hmac (st : St) (e : Entity) (cc : Nat) (r : Role) (cph : Bytes) (a : AuthIn) (s : Session)
+    (hpw : a.sh ≠ TPM_RS_PW) (hs : st.session a.sh = some s) (hp : s.policy = false)
+    (h : checkOne st e cc r cph a = .pass) :
+    policyRequired r e = false ∧ authAvail e cc r = true ∧
+    ((hmacKey s e = [] ∧ a.hmac = []) ∨
+      a.hmac = hmac sha256 (s.key ++ (if boundTo s e then [] else e.auth)) (cph ++ a.nonce ++ s.nonceTPM ++ [UInt8.ofNat a.attrs])) := by
+  unfold checkOne at h
+  simp only [hpw, if_false, hs, hp, Bool.false_and, Bool.false_eq_true, Bool.not_false, if_true] at h
+  by_cases h1 : policyRequired r e = true
+  · simp [h1] at h
+  · by_cases h2 : authAvail e cc r = true
+    · simp only [h1, h2, Bool.not_true] at h
+      exact ⟨by simpa using h1, h2, (hmacCheck_pass_iff s (hmacKey s e) cph a).mp h⟩
+    · simp [h1, h2] at h
+
+/-- and conversely a correct HMAC on an available authValue passes -/
+theorem checkOne_hmac_correct (st : St) (e : Entity) (cc : Nat) (r : Role) (cph : Bytes) (a : AuthIn) (s : Session)
+    (hpw : a.sh ≠ TPM_RS_PW) (hs : st.session a.sh = some s) (hp : s.policy = false)
+    (h1 : policyRequired r e = false) (h2 : authAvail e cc r = true)
+    (hm : a.hmac = hmac sha256 (hmacKey s e) (cph ++ a.nonce ++ s.nonceTPM ++ [UInt8.ofNat a.attrs])) :
+    checkOne st e cc r cph a = .pass := by
+  unfold checkOne
+  simp only [hpw, if_false, hs, hp, Bool.false_and, Bool.false_eq_true, Bool.not_false, if_true, h1, h2, Bool.not_true]
+  exact (hmacCheck_pass_iff s (hmacKey s e) cph a).mpr (Or.inr hm)
 
 /-- a session handle the TPM does not know never authorizes -/
-theorem checkOne_unknown_session (st : St) (e : Entity) (cph : Bytes) (a : AuthIn)
-    (hpw : a.sh ≠ TPM_RS_PW) (hs : st.session a.sh = none) : checkOne st e cph a = false := by
+theorem checkOne_unknown_session (st : St) (e : Entity) (cc : Nat) (r : Role) (cph : Bytes) (a : AuthIn)
+    (hpw : a.sh ≠ TPM_RS_PW) (hs : st.session a.sh = none) : checkOne st e cc r cph a = .noSession := by
   simp [checkOne, hpw, hs]
 
-/-- **password: accepted iff equal to the stored value after removing trailing zeros** -/
-theorem checkOne_pw_iff (st : St) (e : Entity) (cph : Bytes) (a : AuthIn) (hpw : a.sh = TPM_RS_PW) :
-    checkOne st e cph a = true ↔ stripZeros a.hmac = e.auth := by
-  simp [checkOne, hpw]
+/-- **password: passes only if equal to the stored value after removing trailing zeros**, no policy is required and the
+    entity allows its authValue for this command -/
+theorem checkOne_pw (st : St) (e : Entity) (cc : Nat) (r : Role) (cph : Bytes) (a : AuthIn) (hpw : a.sh = TPM_RS_PW)
+    (h : checkOne st e cc r cph a = .pass) :
+    stripZeros a.hmac = e.auth ∧ policyRequired r e = false ∧ authAvail e cc r = true := by
+  unfold checkOne pwCheck at h
+  simp only [hpw, if_true] at h
+  by_cases h0 : a.attrs &&& 0xE6 ≠ 0
+  · simp [h0] at h
+  · by_cases h1 : policyRequired r e = true
+    · simp [h0, h1] at h
+    · by_cases h2 : authAvail e cc r = true
+      · by_cases h3 : stripZeros a.hmac = e.auth
+        · exact ⟨h3, by simpa using h1, h2⟩
+        · simp [h0, h1, h2, h3] at h
+      · simp [h0, h1, h2] at h
+
+/-- the policy part: digest equal, command code (if fixed) is this command, ADMIN/DUP need a fixed command code -/
+theorem policyCheck_pass (s : Session) (e : Entity) (cc : Nat) (r : Role) (h : policyCheck s e cc r = .pass) :
+    s.pDigest = e.policy ∧ (s.pcc = 0 ∨ s.pcc = cc) ∧ (s.pcc = 0 → r = .user) := by
+  unfold policyCheck at h
+  split at h
+  · exact Check.noConfusion h
+  · rename_i h2
+    have h2' : s.pDigest = e.policy := by simpa using h2
+    split at h
+    · rename_i h3
+      split at h
+      · exact Check.noConfusion h
+      · rename_i h4
+        exact ⟨h2', Or.inr (by simpa using h4), fun h0 => absurd h0 h3⟩
+    · rename_i h3
+      have h3' : s.pcc = 0 := by simpa using h3
+      split at h
+      · exact Check.noConfusion h
+      · rename_i h4
+        exact ⟨h2', Or.inl h3', fun _ => by simpa using h4⟩
+
+/-- **policy session: passes only if the session's policyDigest IS the entity's authPolicy**, the command code fixed by
+    the policy (if any) is this command, ADMIN/DUP roles have a command code fixed, and the authValue proof the policy
+    demanded (PolicyPassword: the password; PolicyAuthValue: an HMAC keyed with the authValue) is correct -/
+theorem checkOne_policy (st : St) (e : Entity) (cc : Nat) (r : Role) (cph : Bytes) (a : AuthIn) (s : Session)
+    (hpw : a.sh ≠ TPM_RS_PW) (hs : st.session a.sh = some s) (hp : s.policy = true)
+    (h : checkOne st e cc r cph a = .pass) :
+    s.pDigest = e.policy ∧ policyAvail e cc r = true ∧ (s.pcc = 0 ∨ s.pcc = cc) ∧ (s.pcc = 0 → r = .user) ∧
+    (if s.needPw then stripZeros a.hmac = e.auth
+     else (s.key ++ (if s.needAuth then e.auth else []) = [] ∧ a.hmac = []) ∨
+       a.hmac = hmac sha256 (s.key ++ (if s.needAuth then e.auth else [])) (cph ++ a.nonce ++ s.nonceTPM ++ [UInt8.ofNat a.attrs])) := by
+  unfold checkOne at h
+  simp only [hpw, if_false, hs, hp, Bool.true_and, Bool.not_true, Bool.false_eq_true] at h
+  by_cases h0 : decide (a.attrs &&& 128 ≠ 0) = true
+  · simp only [h0, if_true] at h; exact Check.noConfusion h
+  · simp only [h0] at h
+    by_cases h1 : policyAvail e cc r = true
+    · simp only [h1, Bool.not_true, Bool.false_eq_true, if_false] at h
+      cases hpc : policyCheck s e cc r with
+      | pass =>
+        obtain ⟨p1, p2, p3⟩ := policyCheck_pass s e cc r hpc
+        simp only [hpc] at h
+        refine ⟨p1, h1, p2, p3, ?_⟩
+        by_cases h5 : s.needPw = true
+        · simp only [h5, if_true] at h ⊢
+          unfold pwCheck at h
+          by_cases h6 : stripZeros a.hmac = e.auth
+          · exact h6
+          · simp [h6] at h
+        · simp only [h5, Bool.false_eq_true, if_false] at h ⊢
+          exact (hmacCheck_pass_iff s _ cph a).mp h
+      | failAuth => simp [hpc] at h
+      | failPolicy => simp [hpc] at h
+      | failPolicyCC => simp [hpc] at h
+      | unavailable => simp [hpc] at h
+      | authType => simp [hpc] at h
+      | badAttributes => simp [hpc] at h
+      | noSession => simp [hpc] at h
+    · have : policyAvail e cc r = false := by simpa using h1
+      simp [this] at h
+
+/-- **ADMIN role on an NV index (NV_ChangeAuth, NV_UndefineSpaceSpecial) is never authorized by a password or an HMAC session** -/
+theorem admin_nv_needs_policy (st : St) (e : Entity) (cc : Nat) (cph : Bytes) (a : AuthIn)
+    (hnv : e.isObject = false) (hs : a.sh = TPM_RS_PW ∨ ∃ s, st.session a.sh = some s ∧ s.policy = false) :
+    checkOne st e cc .admin cph a ≠ .pass := by
+  have hreq : policyRequired .admin e = true := by simp [policyRequired, hnv]
+  intro h
+  rcases hs with hpw | ⟨s, hs, hp⟩
+  · have := (checkOne_pw st e cc .admin cph a hpw h).2.1
+    rw [hreq] at this; exact Bool.noConfusion this
+  · by_cases hpw : a.sh = TPM_RS_PW
+    · have := (checkOne_pw st e cc .admin cph a hpw h).2.1
+      rw [hreq] at this; exact Bool.noConfusion this
+    · have := (checkOne_hmac st e cc .admin cph a s hpw hs hp h).1
+      rw [hreq] at this; exact Bool.noConfusion this
+
+/-! ### Policy digests -/
+
+/-- PolicyOR on a real (non-trial) session is accepted only if the current digest is one of the listed digests -/
+theorem policyOR_accepts (s : Session) (ds : List Bytes) (ht : s.trial = false) (h : (policyStep s (.or ds)).2 = 0) :
+    s.pDigest ∈ ds := by
+  by_cases hc : orOk s ds = true
+  · simpa [orOk, ht] using hc
+  · simp [policyStep, hc, RC_VALUE] at h
+
+/-- a refused policy command changes nothing -/
+theorem policyStep_refused (s : Session) (op : PolicyOp) (h : (policyStep s op).2 ≠ 0) : (policyStep s op).1 = s := by
+  cases op with
+  | authValue => simp [policyStep] at h
+  | password => simp [policyStep] at h
+  | restart => simp [policyStep] at h
+  | commandCode code =>
+    by_cases hc : ccConflict s code = true
+    · simp [policyStep, hc]
+    · simp [policyStep, hc] at h
+  | or ds =>
+    by_cases hc : orOk s ds = true
+    · simp [policyStep, hc] at h
+    · simp [policyStep, hc]
+
+/-- a second PolicyCommandCode with a different code is refused: the command code of a policy cannot be changed -/
+theorem policyCC_fixed (s : Session) (code : Nat) (h0 : s.pcc ≠ 0) (hne : s.pcc ≠ code) :
+    (policyStep s (.commandCode code)).2 = RC_VALUE := by
+  have : ccConflict s code = true := by simp [ccConflict, h0, hne]
+  simp [policyStep, this]
+
+/-- policy commands never touch the nonce, the session key or the binding -/
+theorem policyStep_frame (s : Session) (op : PolicyOp) :
+    (policyStep s op).1.nonceTPM = s.nonceTPM ∧ (policyStep s op).1.key = s.key ∧ (policyStep s op).1.handle = s.handle ∧
+    (policyStep s op).1.policy = s.policy := by
+  cases op with
+  | authValue => simp [policyStep]
+  | password => simp [policyStep]
+  | restart => simp [policyStep]
+  | commandCode code => by_cases hc : ccConflict s code = true <;> simp [policyStep, hc]
+  | or ds => by_cases hc : orOk s ds = true <;> simp [policyStep, hc]
+
+/-- after use, a policy session's digest is gone: it authorizes nothing whose policy is non-trivial until the policy is re-run -/
+theorem resetPolicy_digest (s : Session) (hp : s.policy = true) : (resetPolicy s).pDigest = List.replicate 32 0 ∧ (resetPolicy s).pcc = 0 := by
+  simp [resetPolicy, hp]
 
 /-! ### What the HMAC covers: injectivity of the HMAC input -/
 
@@ -179,17 +358,13 @@ def exEnt : Entity := { handle := 1, name := be32 0x40000001, auth := [0x6f, 0x7
 def exSess : Session := { handle := 2, nonceTPM := List.replicate 32 7, key := [], bound := false, bindName := [], bindAuth := [] }
 def exSt : St := { ents := [exEnt], sess := [exSess] }
 def exCph : Bytes := cpHash 0x130 [exEnt.name] [0]
-def exAuth : AuthIn := { sh := 2, nonce := List.replicate 32 9, attrs := 1, hmac := expectedHmac exSess exEnt exCph { sh := 2, nonce := List.replicate 32 9, attrs := 1, hmac := [] } }
+def exAuth : AuthIn := { sh := 2, nonce := List.replicate 32 9, attrs := 1, hmac := hmac sha256 (hmacKey exSess exEnt) (exCph ++ List.replicate 32 9 ++ exSess.nonceTPM ++ [UInt8.ofNat 1]) }
 theorem ex_session : exSt.session exAuth.sh = some exSess := by simp [exSt, St.session, exSess, exAuth]
 theorem ex_not_pw : exAuth.sh ≠ TPM_RS_PW := by simp [exAuth, TPM_RS_PW]
-/-- the hypotheses of the theorems above are satisfiable: this authorization verifies … -/
-theorem ex_verifies : checkOne exSt exEnt exCph exAuth = true :=
-  (checkOne_hmac_iff exSt exEnt exCph exAuth exSess ex_not_pw ex_session).mpr (by simp [exAuth, expectedHmac, hmacKey, authMsg])
-/-- … the command it authorizes is accepted … -/
-example : checkFrom exSt exCph [exEnt.handle] [exAuth] 0 = .ok := by
-  have he : exSt.ent exEnt.handle = some exEnt := by simp [exSt, St.ent, exEnt]
-  simp [checkFrom, he, ex_verifies]
-/-- … and without a session it is refused -/
+/-- the hypotheses of the theorems above are satisfiable: this authorization passes … -/
+theorem ex_verifies : checkOne exSt exEnt 0x130 .user exCph exAuth = .pass :=
+  checkOne_hmac_correct exSt exEnt 0x130 .user exCph exAuth exSess ex_not_pw ex_session rfl rfl rfl (by simp [exAuth])
+/-- … and without a session the command is refused -/
 example : authorize exSt { tag := 0x8001, cc := 0x130, handles := [1], auths := [], params := [0] } 0x210 = .authMissing :=
   missing_session _ _ _ (by decide)
 end example_state
